@@ -93,8 +93,12 @@ void QXmppIq::parseElementFromChild(const QDomElement &element)
 {
     QXmppElementList extensions;
 
+    // the <error/> element has been parsed by QXmppStanza::parse() and is written from error()
+    const auto errorElement = firstChildElement(element, u"error");
     for (const auto &itemElement : iterChildElements(element)) {
-        extensions.append(QXmppElement(itemElement));
+        if (itemElement != errorElement) {
+            extensions.append(QXmppElement(itemElement));
+        }
     }
     setExtensions(extensions);
 }
